@@ -72,6 +72,17 @@ def runStep (st : St) : String :=
           let spec := visitSpec t (C10.Edit.ofInput e)
           (some (before.edit h spec), specVisited spec)
         | _, _ => (none, 0)
+      | ["reparse", _, newh] | ["parse", newh] =>
+        -- abstract build: what the real result reuses is read off the addresses; the model then
+        -- predicts every count (fresh-parser mode only: a persistent parser's token cache holds extra references)
+        if st.exact then
+          match st.cur.lookup (natOf newh) with
+          | some t =>
+            let (b, ids) := loadStateIds hsB
+            let spec := buildSpecOf ids t
+            (some ((padHandles b nhB).reparse spec), specReused spec)
+          | none => (none, 0)
+        else (none, 0)
       | _ => (none, 0)
     let corr := match model with
       | none => "na"
